@@ -1,6 +1,38 @@
 //! Source -> bytecode (serde_json) -> load -> run
-use gluon::RootedThread;
+use futures::executor::block_on;
+use gluon::compiler_pipeline::{Executable, Precompiled};
+use gluon::{RootedThread, ThreadExt};
 
-pub fn roundtrip(_vm: &RootedThread, _name: &str, _src: &str) -> Result<(String, String), String> {
-    Err("bytecode roundtrip not built yet".into())
+use crate::common::*;
+
+pub fn compile(vm: &RootedThread, name: &str, src: &str) -> Result<String, String> {
+    let mut buffer = Vec::new();
+    {
+        let mut serializer = serde_json::Serializer::new(&mut buffer);
+        block_on(vm.compile_to_bytecode(name, src, &mut serializer)).map_err(|e| match e {
+            gluon::either::Either::Left(e) => e.to_string(),
+            gluon::either::Either::Right(e) => format!("serializer: {}", e),
+        })?;
+    }
+    String::from_utf8(buffer).map_err(|e| e.to_string())
+}
+
+pub fn run_json(vm: &RootedThread, name: &str, json: &str) -> Result<(String, String), String> {
+    let mut deserializer = serde_json::Deserializer::from_str(json);
+    let r = block_on(Precompiled(&mut deserializer).run_expr(
+        &mut vm.module_compiler(&mut vm.get_database()),
+        &**vm,
+        name,
+        "",
+        (),
+    ));
+    match r {
+        Ok(v) => Ok((render(v.value.get_variant()), v.typ.to_string())),
+        Err(e) => Err(e.to_string()),
+    }
+}
+
+pub fn roundtrip(vm: &RootedThread, name: &str, src: &str) -> Result<(String, String), String> {
+    let json = compile(vm, name, src)?;
+    run_json(vm, name, &json)
 }
